@@ -10,6 +10,8 @@ import (
 	"strconv"
 	"sync"
 
+	"github.com/cometbft/cometbft/libs/log"
+
 	"github.com/settlus/chain/tools/interop-node/subscriber"
 )
 
@@ -45,6 +47,44 @@ func main() {
 				if h != fmt.Sprintf("h%d", n) || uint64(n) < q {
 					select {
 					case bad <- fmt.Sprintf("reader %d: query %d answered (%s, %d)", r, q, h, n):
+					default:
+					}
+				}
+			}
+		}(r)
+	}
+	// the same through the subscriber: the writer does what fetchLoop does (PutBlockData on the subscriber's own
+	// cache, reached through the build-tagged hook), the readers call EthereumSubscriber.GetOldestBlock like the feeder
+	// loop, with queries that hit and queries ahead of the newest block (the miss path has code of its own)
+	sub, err := subscriber.NewEthereumSubscriber("1", "http://127.0.0.1:1", log.NewNopLogger())
+	if err != nil {
+		fmt.Println("subscriber:", err)
+		os.Exit(2)
+	}
+	sc := sub.VerifCache()
+	wg.Add(1)
+	go func() {
+		defer wg.Done()
+		for i := 1; i <= rounds; i++ {
+			sc.PutBlockData(fmt.Sprintf("h%d", i), int64(i), uint64(i))
+		}
+	}()
+	for r := 0; r < readers; r++ {
+		wg.Add(1)
+		go func(r int) {
+			defer wg.Done()
+			for i := 1; i <= rounds; i++ {
+				q := uint64(i)
+				if i%2 == 0 {
+					q = uint64(rounds + i) // ahead of everything cached: a miss
+				}
+				bd, err := sub.GetOldestBlock(q)
+				if err != nil {
+					continue // miss
+				}
+				if bd.BlockHash != fmt.Sprintf("h%d", bd.BlockNumber) || uint64(bd.BlockNumber) < q || bd.ChainId != "1" {
+					select {
+					case bad <- fmt.Sprintf("subscriber reader %d: query %d answered (%s, %d)", r, q, bd.BlockHash, bd.BlockNumber):
 					default:
 					}
 				}
